@@ -591,7 +591,9 @@ Error BaseBuilder::run_passes() {
     return Error::kOk;
   }
 
-  ErrorHandler* prev = error_handler();
+  // Remember whether the error handler is emitter's own or inherited from `CodeHolder` - restoring an inherited handler
+  // via `set_error_handler()` would make it emitter's own, so it would survive detach and attach to another `CodeHolder`.
+  ErrorHandler* prev = has_emitter_flag(EmitterFlags::kOwnErrorHandler) ? error_handler() : nullptr;
   PostponedErrorHandler postponed;
 
   Error err = Error::kOk;
